@@ -28,3 +28,10 @@ S["C17"] = dict(title="In-flight packet identifiers unique and bounded; excess g
   assumptions=_outasm,
   bounds={"quick":"maxima in classes {<0, 0, 1..3, 16383..16384, >16384} with the value free inside; W<=2 concrete in-flight entries; <= 2 pre-registered subscribe/unsubscribe slots at free identifiers","thorough":"W<=3"},
   outside=["performance at 16384 in flight","the 8192-identifier reuse horizon of subscribe/unsubscribe (by design)"])
+S["C13"] = dict(title="Hostile broker input: no panic, reset on violation, no forged progress", technique=TECH+"; the inbound packet is an arbitrary buffer served through the real bufio.Reader", harnesses=[
+    H("verifH_C13_header", "L13.a remaining-length decoding of 1+5 arbitrary bytes vs the specification's algorithm", reach=("malformed","wellformed-length")),
+    H("verifH_C13_packet", "L13.b one packet of arbitrary type/flags/body from an INV state against a shadow model of legitimate steps", T({"W":1,"maxbody":5}), T({"W":2,"maxbody":7}, time_sec=1500), ("violation","legit-publish","legit-ack","legit-pubrel","legit-suback","legit-unsuback","legit-pingresp","violation-suback","legit-duplicate")),
+  ],
+  assumptions=_outasm+["bufio.Reader is executed from SSA with a 16-byte buffer (readBufSize scaled down); the code compares sizes only with readBufSize"],
+  bounds={"quick":"one inbound packet per step, body <= 5 symbolic bytes, W<=1 per outbound run","thorough":"body <= 7 bytes, W<=2"},
+  outside=["streams of several hostile packets (error => offline, success => aligned is the inductive step)","bodies longer than the bound","wall-clock waiting"])
